@@ -60,6 +60,13 @@ def ln(n):
     return n + "_" if n in LEAN_KEYWORDS else n
 
 
+def lname(n):
+    """lean identifier of a python variable or of an attribute `self.x` / `self._x` kept as a variable"""
+    if n.startswith("self."):
+        return "self_" + n[5:].lstrip("_")
+    return ln(n)
+
+
 def src(node):
     try:
         return ast.unparse(node)
@@ -120,6 +127,19 @@ class Unit:
                 return n.value
         raise TranslationError(f"{cls}.{name} (class attribute) not found")
 
+    def field_default(self, cls, name):
+        """default of a dataclass field: `x: T = v` or `x: T = dataclasses.field(default=v, ...)`; None if there is none"""
+        for n in self.classes[cls].body:
+            if isinstance(n, ast.AnnAssign) and isinstance(n.target, ast.Name) and n.target.id == name and n.value is not None:
+                v = n.value
+                if isinstance(v, ast.Call) and src(v.func) in ("dataclasses.field", "field"):
+                    for k in v.keywords:
+                        if k.arg == "default":
+                            return k.value
+                    return None
+                return v
+        return None
+
     def registered_variant(self, base, annotation):
         for n in self.registered:
             d = n.decorator_list[0]
@@ -152,6 +172,9 @@ class Fn:
         self.mk = mk              # for __init__: function env -> lean text of the constructed object
         self.tmp = 0
         self.stmts = 0
+        self.aux = []             # loop functions (text), innermost first
+        self.loops = []           # stack of loops being compiled
+        self.nloops = 0
 
     def fail(self, node, why):
         raise TranslationError(f"{self.f.name} l.{getattr(node, 'lineno', '?')}: {why}: `{src(node)[:90]}`")
@@ -162,6 +185,8 @@ class Fn:
 
     # ------------------------------------------------------------------ expressions
     def attr(self, node, env):
+        if isinstance(node.value, ast.Name) and node.value.id == "self" and ("self." + node.attr) in env:
+            return env["self." + node.attr]
         base = self.expr(node.value, env)
         a = node.attr
         k = base[0]
@@ -192,9 +217,9 @@ class Fn:
             if a == "parent_length":
                 return ("int", base[2])
             if a in ("start", "end"):
-                return ("int", f"(fm{a.capitalize()} {paren(base[1])})")
+                return ("int", f"(fm{a.capitalize()} {paren(base[1])} {paren(base[2])})")
             if a in ("_start", "_end"):
-                return ("optint", f"(fmPost {paren(base[1])}).{'start_' if a == '_start' else 'end_'}")
+                return ("optint", f"(fmPost {paren(base[1])} {paren(base[2])}).{'start_' if a == '_start' else 'end_'}")
         if k == "fsp":
             if a == "lost":
                 return ("bool", f"{base[1]}.isLost")
@@ -299,6 +324,10 @@ class Fn:
             return ("prop", " ∧ ".join(parts)) if len(parts) > 1 else ("prop", parts[0])
         if isinstance(node, ast.IfExp):
             c = self.as_prop(self.expr(node.test, env), node)
+            if c == "True":
+                return self.expr(node.body, env)
+            if c == "False":
+                return self.expr(node.orelse, env)
             a, b = self.expr(node.body, env), self.expr(node.orelse, env)
             if a[0] == b[0] == "int":
                 return ("int", f"if {c} then {a[1]} else {b[1]}")
@@ -307,6 +336,16 @@ class Fn:
             return self.call(node, env)
         if isinstance(node, ast.ListComp):
             return self.listcomp(node, env)
+        if isinstance(node, ast.Subscript):
+            base = self.expr(node.value, env)
+            if base[0] == "tuple" and isinstance(node.slice, ast.Constant) and isinstance(node.slice.value, int) \
+                    and 0 <= node.slice.value < len(base[1]):
+                return base[1][node.slice.value]
+            self.fail(node, f"subscript of a {base[0]}")
+        if isinstance(node, ast.List) and not node.elts:
+            return ("emptylist",)
+        if isinstance(node, ast.List) and len(node.elts) == 1 and self.expr(node.elts[0], env)[0] == "int":
+            return ("intlist", [self.expr(node.elts[0], env)[1]])
         if isinstance(node, ast.List):
             vals = [self.expr(e, env) for e in node.elts]
             if all(v[0] == "tuple" and len(v[1]) == 2 for v in vals):
@@ -437,10 +476,20 @@ class Fn:
             if locs[0] != "pairs":
                 self.fail(node, "locations= must be a list of pairs")
             return ("m", f"FMap.fromLocations {locs[1]} {paren(pl)}", "fmrec")   # S6
+        if isinstance(f, ast.Name) and f.id == "isinstance" and len(node.args) == 2 and src(node.args[1]) == "int":
+            v = self.expr(node.args[0], env)      # S9: positions are python ints (the array form is not translated)
+            if v[0] == "int":
+                return ("bool", "true")
+            self.fail(node, f"isinstance(<{v[0]}>, int)")
         if isinstance(f, ast.Name):
             args = [self.expr(a, env) for a in node.args]
             if node.keywords:
                 self.fail(node, "keyword arguments")
+            if f.id in ("min", "max") and len(args) == 2 and args[0][0] == "optint" and args[1][0] == "int":
+                # S8: None propagates (python: TypeError)
+                return ("optint", f"opt{f.id.capitalize()} {paren(args[0][1])} {paren(args[1][1])}")
+            if f.id == "isinstance" and len(args) == 0:
+                pass
             if f.id in ("min", "max") and len(args) == 2:
                 return ("int", f"{f.id} {paren(self.as_int(args[0], node))} {paren(self.as_int(args[1], node))}")
             if f.id == "abs" and len(args) == 1:
@@ -450,7 +499,11 @@ class Fn:
             if f.id in ("list", "tuple") and len(args) == 1 and args[0][0] == "fsps":
                 return args[0]
             if f.id == "len" and len(args) == 1 and args[0][0] == "fm":
-                return ("int", f"(fmPost {paren(args[0][1])}).length")
+                return ("int", f"(fmPost {paren(args[0][1])} {paren(args[0][2])}).length")
+            if f.id == "span_and_span" and len(args) == 2 and all(
+                    a[0] == "tuple" and len(a[1]) == 2 and all(x[0] == "int" for x in a[1]) for a in args):
+                flat = " ".join(paren(x[1]) for a in args for x in a[1])
+                return ("m", f"spanAndSpan {flat}", "optpair")
             if f.id == "_norm_index" and len(args) == 3:
                 return ("int", f"normIndex {self.opt_text(args[0], node)} {paren(self.as_int(args[1], node))} {paren(self.as_int(args[2], node))}")
             if f.id == "_norm_slice" and len(args) == 2:
@@ -462,6 +515,17 @@ class Fn:
                     return ("m", f"normSliceInt {paren(args[0][1])} {L}", "tuple3")
                 self.fail(node, f"_norm_slice of a {args[0][0]}")
             self.fail(node, "call")
+        if isinstance(f, ast.Attribute) and src(f) == "numpy.array" and len(node.args) == 1 \
+                and all(k.arg == "dtype" for k in node.keywords):
+            v = self.expr(node.args[0], env)     # S7: an array of pairs is the list of pairs
+            if v[0] in ("pairs", "intlist"):
+                return v
+            self.fail(node, f"numpy.array of a {v[0]}")
+        if isinstance(f, ast.Attribute) and f.attr == "min" and not node.args and not node.keywords:
+            recv = self.expr(f.value, env)
+            if recv[0] == "intlist" and len(recv[1]) == 1:
+                return ("int", recv[1][0])      # S7: the minimum of a one-element array
+            self.fail(node, f".min() of a {recv[0]}")
         if isinstance(f, ast.Attribute):
             recv = self.expr(f.value, env)
             if recv[0] == "fsp" and not node.args and not node.keywords and f.attr == "reversed":
@@ -530,7 +594,7 @@ class Fn:
 
     def terminates(self, stmts):
         for s in stmts:
-            if isinstance(s, (ast.Return, ast.Raise)):
+            if isinstance(s, (ast.Return, ast.Raise, ast.Continue, ast.Break)):
                 return True
             if isinstance(s, ast.If) and s.orelse and self.terminates(s.body) and self.terminates(s.orelse):
                 return True
@@ -544,6 +608,8 @@ class Fn:
             t = s.targets[0]
             if isinstance(t, ast.Name) and t.id in UNMODELLED:
                 return True
+            if isinstance(t, ast.Name) and t.id == "dtype" and "dtype" in src(s.value):
+                return True    # S7: numpy dtype bookkeeping
             if isinstance(t, ast.Attribute) and t.attr in UNMODELLED:
                 return True
             if self.f.name == "__init__" and isinstance(t, ast.Name) and t.id in ("d", "x", "exclude"):
@@ -566,11 +632,37 @@ class Fn:
         while stmts and self.dropped_stmt(stmts[0]):
             stmts = stmts[1:]
         if not stmts:
+            if self.loops:
+                return pad + self.loop_continue(env, None)
             if self.mk is not None:
                 return pad + self.wrap(self.mk(self, env))
             raise TranslationError(f"{self.f.name}: control falls off the end of the function")
         s, rest = stmts[0], stmts[1:]
         self.stmts += 1
+        if isinstance(s, ast.Continue):
+            if not self.loops:
+                self.fail(s, "continue outside a loop")
+            return pad + self.loop_continue(env, s)
+        if isinstance(s, ast.Break):
+            if not self.loops:
+                self.fail(s, "break outside a loop")
+            return pad + self.loop_break(env, s)
+        if isinstance(s, ast.Return) and self.loops:
+            self.fail(s, "return inside a loop")
+        if (isinstance(s, ast.Expr) and isinstance(s.value, ast.Call) and isinstance(s.value.func, ast.Attribute)
+                and s.value.func.attr == "append" and env.get(src(s.value.func.value), ("?",))[0] in ("pairs", "ints")
+                and len(s.value.args) == 1 and not s.value.keywords):
+            n = src(s.value.func.value)
+            v = self.expr(s.value.args[0], env)
+            env2 = dict(env)
+            if env[n][0] == "pairs":
+                if v[0] != "tuple" or len(v[1]) != 2 or any(x[0] != "int" for x in v[1]):
+                    self.fail(s, "append of something other than a pair of ints")
+                item = self.tuple_text(v, s)
+            else:
+                item = self.as_int(v, s)
+            env2[n] = (env[n][0], lname(n))
+            return f"{pad}let {lname(n)} := {paren(env[n][1])} ++ [{item}]\n{self.block(rest, env2, ind)}"
         if isinstance(s, ast.Return):
             if s.value is None:
                 self.fail(s, "bare return")
@@ -588,9 +680,12 @@ class Fn:
                 self.fail(s, "exception class")
             return pad + f".error .{ERR[exc]}"
         if isinstance(s, ast.Assert):
-            if not self.monadic:
+            if not self.monadic and self.as_prop(self.expr(s.test, env), s) != "True":
                 self.fail(s, "assert in a function declared pure")
-            c = self.as_prop(self.expr(s.test, env), s)
+            c0 = self.as_prop(self.expr(s.test, env), s)
+            if c0 == "True":
+                return self.block(rest, env, ind)     # `x is not None` of an int: holds
+            c = c0
             return f"{pad}if {c} then\n{self.block(rest, env, ind + 1)}\n{pad}else .error .assertionError"
         if isinstance(s, ast.If):
             return self.if_stmt(s, rest, env, ind)
@@ -637,6 +732,13 @@ class Fn:
                 self.fail(s, "attribute assignment outside __init__")
             v = self.expr(value, env)
             name = "self_" + t.attr.lstrip("_")
+            if v[0] == "emptylist":
+                k = self.list_kind("self." + t.attr, s)
+                env2["self." + t.attr] = (k, name)
+                return f"{pad}let {name} : {self.KIND_TY[k]} := []\n{self.block(rest, env2, ind)}"
+            if v[0] == "fsps":
+                env2["self." + t.attr] = ("fsps", name)
+                return f"{pad}let {name} := {v[1]}\n{self.block(rest, env2, ind)}"
             if v[0] in ("int", "bool"):
                 env2["self." + t.attr] = (v[0], name)
                 return f"{pad}let {name} := {v[1]}\n{self.block(rest, env2, ind)}"
@@ -647,6 +749,13 @@ class Fn:
         if isinstance(t, ast.Name):
             v = self.expr(value, env)
             name = ln(t.id)
+            if v[0] == "emptylist":
+                k = self.list_kind(t.id, s)
+                env2[t.id] = (k, name)
+                return f"{pad}let {name} : {self.KIND_TY[k]} := []\n{self.block(rest, env2, ind)}"
+            if v[0] == "intlist":
+                env2[t.id] = v
+                return self.block(rest, env2, ind)
             if v[0] == "m":
                 if not self.monadic:
                     self.fail(s, "a call that may raise in a function declared pure")
@@ -669,35 +778,42 @@ class Fn:
                 env2[t.id] = v
                 return self.block(rest, env2, ind)
             self.fail(s, f"assignment of a {v[0]}")
-        if isinstance(t, ast.Tuple) and all(isinstance(e, ast.Name) for e in t.elts):
-            names = [e.id for e in t.elts]
+        if isinstance(t, ast.Tuple) and all(isinstance(e, ast.Name) or (isinstance(e, ast.Attribute) and src(e.value) == "self"
+                                                                          and self.mk is not None) for e in t.elts):
+            names = [src(e) for e in t.elts]
             v = self.expr(value, env)
             kinds3 = ["int", "int", "optint"]
             if v[0] == "tuple3" and len(names) == 3:
                 for n, k in zip(names, kinds3):
-                    env2[n] = (k, ln(n))
-                return f"{pad}let ({', '.join(ln(n) for n in names)}) := {v[1]}\n{self.block(rest, env2, ind)}"
+                    env2[n] = (k, lname(n))
+                return f"{pad}let ({', '.join(lname(n) for n in names)}) := {v[1]}\n{self.block(rest, env2, ind)}"
             if v[0] == "m" and v[2] == "tuple3" and len(names) == 3:
                 for n, k in zip(names, kinds3):
-                    env2[n] = (k, ln(n))
-                return (f"{pad}match {v[1]} with\n{pad}| .error e => .error e\n{pad}| .ok ({', '.join(ln(n) for n in names)}) =>\n"
+                    env2[n] = (k, lname(n))
+                return (f"{pad}match {v[1]} with\n{pad}| .error e => .error e\n{pad}| .ok ({', '.join(lname(n) for n in names)}) =>\n"
+                        f"{self.block(rest, env2, ind + 1)}")
+            if v[0] == "m" and v[2] == "optpair" and len(names) == 2:
+                tn = self.fresh("r")
+                env2[names[0]] = ("optfst", tn, names[0], names[1])
+                env2[names[1]] = ("optsnd", tn, names[0], names[1])
+                return (f"{pad}match {v[1]} with\n{pad}| .error e => .error e\n{pad}| .ok {tn} =>\n"
                         f"{self.block(rest, env2, ind + 1)}")
             if v[0] == "tuple" and len(v[1]) == len(names):
                 comps = []
                 for n, x in zip(names, v[1]):
                     if x[0] == "int":
-                        env2[n] = ("int", ln(n))
+                        env2[n] = ("int", lname(n))
                         comps.append(x[1])
                     elif x[0] in ("bool", "prop"):
-                        env2[n] = ("bool", ln(n))
+                        env2[n] = ("bool", lname(n))
                         comps.append(self.as_bool(x, s))
                     elif x[0] in ("optint", "none"):
-                        env2[n] = ("optint", ln(n))
+                        env2[n] = ("optint", lname(n))
                         comps.append(f"({self.opt_text(x, s)} : Option Int)")
                     else:
                         self.fail(s, f"tuple assignment of a {x[0]}")
                 # simultaneous: the right-hand side is evaluated with the old bindings
-                return f"{pad}let ({', '.join(ln(n) for n in names)}) := ({', '.join(comps)})\n{self.block(rest, env2, ind)}"
+                return f"{pad}let ({', '.join(lname(n) for n in names)}) := ({', '.join(comps)})\n{self.block(rest, env2, ind)}"
             if v[0] == "span_pair":
                 pass
             self.fail(s, "tuple assignment")
@@ -709,8 +825,8 @@ class Fn:
         body_rest = s.body if self.terminates(s.body) else s.body + rest
         else_rest = (s.orelse if self.terminates(s.orelse) else s.orelse + rest) if s.orelse else rest
         # isinstance(start, Span): S3
-        if isinstance(t, ast.Call) and isinstance(t.func, ast.Name) and t.func.id == "isinstance" and src(t.args[1]) == "Span":
-            return self.block(else_rest, env, ind)
+        if isinstance(t, ast.Call) and isinstance(t.func, ast.Name) and t.func.id == "isinstance" and src(t.args[1]) in ("Span", "property"):
+            return self.block(else_rest, env, ind)     # S3; `property`: artefact of dataclasses, spans are given
         # narrowing of an optional
         if (isinstance(t, ast.Compare) and len(t.ops) == 1 and isinstance(t.ops[0], (ast.Is, ast.IsNot))
                 and isinstance(t.left, ast.Name) and env.get(t.left.id, ("?",))[0] == "optint"
@@ -724,6 +840,31 @@ class Fn:
             none_b, some_b = (body_rest, else_rest) if isinstance(t.ops[0], ast.Is) else (else_rest, body_rest)
             return (f"{pad}match {env[n][1]} with\n{pad}| none =>\n{self.block(none_b, env_none, ind + 1)}\n"
                     f"{pad}| some {v} =>\n{self.block(some_b, env_some, ind + 1)}")
+        # `i1 is None` / `result[0] is None` where (i1, i2) / result is the pair-or-(None, None) a function returned
+        if (isinstance(t, ast.Compare) and len(t.ops) == 1 and isinstance(t.ops[0], (ast.Is, ast.IsNot))
+                and isinstance(t.comparators[0], ast.Constant) and t.comparators[0].value is None):
+            pv = None
+            if isinstance(t.left, ast.Name) and env.get(t.left.id, ("?",))[0] in ("optfst", "optsnd"):
+                _, pv, n1, n2 = env[t.left.id]
+                some_env = {n1: ("int", ln(n1)), n2: ("int", ln(n2))}
+                none_env = {n1: ("none",), n2: ("none",)}
+                pat = f"({ln(n1)}, {ln(n2)})"
+            elif (isinstance(t.left, ast.Subscript) and isinstance(t.left.value, ast.Name)
+                  and env.get(t.left.value.id, ("?",))[0] == "optpair" and isinstance(t.left.slice, ast.Constant)
+                  and t.left.slice.value in (0, 1)):
+                n = t.left.value.id
+                pv = env[n][1]
+                c0, c1 = f"{ln(n)}_0", f"{ln(n)}_1"
+                some_env = {n: ("tuple", [("int", c0), ("int", c1)])}
+                none_env = {n: ("tuple", [("none",), ("none",)])}
+                pat = f"({c0}, {c1})"
+            if pv is not None:
+                env_some, env_none = dict(env), dict(env)
+                env_some.update(some_env)
+                env_none.update(none_env)
+                none_b, some_b = (body_rest, else_rest) if isinstance(t.ops[0], ast.Is) else (else_rest, body_rest)
+                return (f"{pad}match {pv} with\n{pad}| none =>\n{self.block(none_b, env_none, ind + 1)}\n"
+                        f"{pad}| some {pat} =>\n{self.block(some_b, env_some, ind + 1)}")
         c = self.as_prop(self.expr(t, env), s)
         return f"{pad}if {c} then\n{self.block(body_rest, env, ind + 1)}\n{pad}else\n{self.block(else_rest, env, ind + 1)}"
 
@@ -749,12 +890,155 @@ class Fn:
                     out.append(k)
             elif isinstance(s, ast.Expr) and isinstance(s.value, ast.Constant):
                 pass
+            elif isinstance(s, ast.For):
+                for e in (s.target.elts if isinstance(s.target, ast.Tuple) else [s.target]):
+                    if src(e) not in out:
+                        out.append(src(e))
+                self.assigned_names(s.body, out)
+            elif isinstance(s, (ast.Continue, ast.Break, ast.Raise, ast.Assert)):
+                pass
             else:
-                self.fail(s, "statement in a fold loop (only assignments, append and if are translated)")
+                self.fail(s, "statement in a loop (assignments, append, if, for, continue, break, raise are translated)")
         return out
 
+    KIND_TY = {"int": "Int", "bool": "Bool", "optint": "Option Int", "pairs": "List (Int × Int)", "fsps": "List FMap.FSp",
+               "ints": "List Int"}
+
+    def list_kind(self, target, node):
+        """kind of a list that starts as `[]`: read off the `.append` calls on it in this function"""
+        kinds = set()
+        for nd in ast.walk(self.f):
+            if (isinstance(nd, ast.Call) and isinstance(nd.func, ast.Attribute) and nd.func.attr == "append"
+                    and src(nd.func.value) == target and len(nd.args) == 1):
+                kinds.add("pairs" if isinstance(nd.args[0], ast.Tuple) else "ints")
+        if len(kinds) != 1:
+            self.fail(node, f"cannot tell what the list {target} holds")
+        return kinds.pop()
+
+    def state_text(self, env, node):
+        """the current values of the loop-carried variables of the innermost loop"""
+        lp = self.loops[-1]
+        out = []
+        for n, k in lp["state"]:
+            v = env[n]
+            if k == "optint":
+                out.append(self.opt_text(v, node or lp["node"]))
+            elif k == "int":
+                out.append(self.as_int(v, node or lp["node"]))
+            elif k == "bool":
+                out.append(self.as_bool(v, node or lp["node"]))
+            elif v[0] == k:
+                out.append(v[1])
+            else:
+                self.fail(node or lp["node"], f"loop variable {n} changes its kind from {k} to {v[0]}")
+        return out
+
+    def loop_continue(self, env, node):
+        lp = self.loops[-1]
+        args = [paren(a) for a in lp["cap_names"]] + [paren(a) for a in self.state_text(env, node)]
+        return f"{lp['name']} {' '.join(args)} rest_"
+
+    def loop_break(self, env, node):
+        st = self.state_text(env, node)
+        tup = st[0] if len(st) == 1 else "(" + ", ".join(st) + ")"
+        return self.wrap(tup)
+
     def for_fold(self, s, rest, env, ind):
-        self.fail(s, "for loop")
+        """`for pat in xs: body` = a function defined by structural recursion over the list; the variables assigned in the
+        body that exist before the loop are its state, `continue` / the end of the body recurse on the tail, `break`
+        returns the state, `raise` is the error"""
+        pad = "  " * ind
+        if s.orelse:
+            self.fail(s, "for ... else")
+        it = self.expr(s.iter, env)
+        env_body = dict(env)
+        if it[0] == "pairs" and isinstance(s.target, ast.Tuple) and len(s.target.elts) == 2 and all(isinstance(e, ast.Name) for e in s.target.elts):
+            targets = [e.id for e in s.target.elts]
+            pat = "(" + ", ".join(ln(n) for n in targets) + ")"
+            for n in targets:
+                env_body[n] = ("int", ln(n))
+            elem_ty = "Int × Int"
+        elif it[0] == "fsps" and isinstance(s.target, ast.Name):
+            targets = [s.target.id]
+            pat = ln(s.target.id)
+            env_body[s.target.id] = ("fsp", pat)
+            elem_ty = "FMap.FSp"
+        else:
+            self.fail(s, f"for loop over a {it[0]}")
+        assigned = self.assigned_names(s.body, [])
+        state = []
+        for n in assigned:
+            if n in targets:
+                self.fail(s, f"the loop variable {n} is assigned in the body")
+            if n in env:
+                k = env[n][0]
+                k = "optint" if k == "none" else k
+                if k not in self.KIND_TY:
+                    self.fail(s, f"loop-carried variable {n} of kind {k}")
+                state.append((n, k))
+        if not state:
+            self.fail(s, "a loop without loop-carried variables")
+        local = [n for n in assigned if n not in env] + targets
+        for r in rest:
+            for nd in ast.walk(r):
+                if isinstance(nd, ast.Name) and isinstance(nd.ctx, ast.Load) and nd.id in local and nd.id not in env:
+                    self.fail(nd, f"variable {nd.id} of the loop body is read after the loop")
+        used = []
+        for b in s.body:
+            for nd in ast.walk(b):
+                if isinstance(nd, ast.Name) and nd.id in env and nd.id not in used:
+                    used.append(nd.id)
+        snames = [n for n, _ in state]
+        captured = []
+        for n in used:
+            if n in snames or n in targets or n == "self":
+                continue
+            k = env[n][0]
+            if k in ("none", "dropped"):
+                continue
+            if k not in self.KIND_TY:
+                self.fail(s, f"the loop body reads {n} of kind {k}")
+            captured.append((n, k))
+        for b in s.body:
+            for nd in ast.walk(b):
+                if (isinstance(nd, ast.Attribute) and isinstance(nd.value, ast.Name) and nd.value.id == "self"
+                        and ("self." + nd.attr) not in snames):
+                    self.fail(nd, "the loop body reads an attribute of self that is not loop-carried")
+        self.nloops += 1
+        name = f"{self.name}_loop{self.nloops}"
+        for n, k in captured + state:
+            env_body[n] = (k, lname(n))
+        lp = {"name": name, "state": state, "cap_names": [lname(n) for n, _ in captured], "node": s}
+        self.loops.append(lp)
+        body = self.block(list(s.body), env_body, 2)
+        self.loops.pop()
+        st_ty = [self.KIND_TY[k] for _, k in state]
+        rt = st_ty[0] if len(st_ty) == 1 else " × ".join(st_ty)
+        if self.monadic:
+            rt = f"Except FMap.FErr ({rt})"
+        params = " ".join(f"({lname(n)} : {self.KIND_TY[k]})" for n, k in captured + state)
+        st_names = [lname(n) for n, _ in state]
+        base = st_names[0] if len(st_names) == 1 else "(" + ", ".join(st_names) + ")"
+        self.aux.append(
+            f"/-- the loop `for {src(s.target)} in {src(s.iter)}` of `{(self.owner + '.') if self.owner else ''}{self.f.name}` "
+            f"(location.py l.{s.lineno}): state ({', '.join(st_names)}); the end of the body / `continue` recurse on the "
+            f"tail, `break` returns the state -/\n"
+            f"def {name} {params} : List ({elem_ty}) → {rt}\n  | [] => {self.wrap(base)}\n  | {pat} :: rest_ =>\n{body}\n")
+        # the call
+        args = []
+        for n, k in captured:
+            args.append(paren(env[n][1]))
+        lp_env = {"state": state, "node": s}
+        self.loops.append(lp_env)
+        init = self.state_text(env, s)
+        self.loops.pop()
+        call = f"{name} {' '.join(args + [paren(a) for a in init] + [paren(it[1])])}"
+        env2 = dict(env)
+        for n, k in state:
+            env2[n] = (k, lname(n))
+        if self.monadic:
+            return f"{pad}match {call} with\n{pad}| .error e => .error e\n{pad}| .ok {base} =>\n{self.block(rest, env2, ind + 1)}"
+        return f"{pad}let {base} := {call}\n{self.block(rest, env2, ind)}"
 
     # ------------------------------------------------------------------ whole function
     def signature(self):
@@ -775,6 +1059,8 @@ class Fn:
                 ps.append(f"({v[1]} {v[2]} {v[3]} : Option Int)")
             elif k == "fsps":
                 ps.append(f"({v[1]} : List FMap.FSp)")
+            elif k == "pairs":
+                ps.append(f"({v[1]} : List (Int × Int))")
             elif k == "fm":
                 ps.append(f"({v[1]} : List FMap.FSp) ({v[2]} : Int)")
             elif k == "tuple":
@@ -806,12 +1092,13 @@ class Fn:
         return body
 
     def compile(self):
-        env = {p: v for p, v in self.params}
+        env = dict(getattr(self, "initial", {}))
+        env.update({p: v for p, v in self.params})
         text = self.block(self.body_stmts(), env, 1)
         doc = f"/-- `{(self.owner + '.') if self.owner else ''}{self.f.name}` (location.py l.{self.f.lineno})"
         if self.variant:
             doc += f", `other` is a {'span' if self.variant == 'span' else 'number'}"
-        return f"{doc} -/\n{self.signature()}\n{text}\n"
+        return "".join(a + "\n" for a in self.aux) + f"{doc} -/\n{self.signature()}\n{text}\n"
 
 
 HEADER = '''/-
@@ -842,6 +1129,27 @@ def pyAbs (x : Int) : Int := if x < 0 then -x else x
 def pyTruthy (x : Option Int) : Prop := x ≠ none ∧ x ≠ some 0
 
 instance (x : Option Int) : Decidable (pyTruthy x) := by unfold pyTruthy; exact inferInstance
+
+/-- `min(x, y)` / `max(x, y)` where `x` may be None (S8: None propagates; python raises TypeError) -/
+def optMin (x : Option Int) (y : Int) : Option Int :=
+  match x with
+  | none => none
+  | some v => some (min v y)
+
+def optMax (x : Option Int) (y : Int) : Option Int :=
+  match x with
+  | none => none
+  | some v => some (max v y)
+
+/-- the fields `FeatureMap.__post_init__` computes -/
+structure Post where
+  offsets : List Int
+  useful : Bool
+  complete : Bool
+  start_ : Option Int
+  end_ : Option Int
+  length : Int
+  deriving DecidableEq, Repr
 
 /-- a sequential loop whose body may raise: the first error wins -/
 def mapE {α β : Type} (f : α → Except FMap.FErr β) : List α → Except FMap.FErr (List β)
@@ -892,6 +1200,15 @@ def gen(path):
     emit(Fn(u, f, "spanAndSpan",
             [(names[0], ("tuple", [("int", "a1"), ("int", "a2")])), (names[1], ("tuple", [("int", "b1"), ("int", "b2")]))],
             "optpair", True))
+    # ---- the loops of the coordinate-list helpers
+    for py, lean in (("coords_minus_coords", "coordsMinusCoords"), ("coords_intersect", "coordsIntersect")):
+        f = u.funcs.get(py)
+        if f is None:
+            raise TranslationError(f"{py} not found")
+        names = [a.arg for a in f.args.args]
+        if len(names) != 2:
+            raise TranslationError(f"{py}: two parameters expected")
+        emit(Fn(u, f, lean, [(names[0], ("pairs", ln(names[0]))), (names[1], ("pairs", ln(names[1])))], "pairs", True))
     # ---- Span
     emit(Fn(u, u.method("Span", "_new_init"), "spanNewInit",
             [("self", ("dropped",)), ("start", ("int", "start")), ("end", ("optint", "end_")), ("reverse", ("bool", "reverse"))],
@@ -953,6 +1270,26 @@ def gen(path):
     out.append(DISPATCH)
     # ---- FeatureMap
     M, OM = ("fm", "self_spans", "self_parent_length"), ("fm", "other_spans", "other_parent_length")
+    pi = u.method("FeatureMap", "__post_init__")
+    pnames = [a.arg for a in pi.args.args]
+    if pnames != ["self", "spans"]:
+        raise TranslationError(f"FeatureMap.__post_init__: parameters {pnames}")
+    fn = Fn(u, pi, "fmPost", [("self", ("fm", "spans", "parent_length"))], "post", False,
+            owner="FeatureMap",
+            mk=lambda fn, env: "{ offsets := %s, useful := %s, complete := %s, start_ := %s, end_ := %s, length := %s }" % (
+                env["self.offsets"][1], fn.as_bool(env["self.useful"], fn.f), fn.as_bool(env["self.complete"], fn.f),
+                fn.opt_text(env["self._start"], fn.f), fn.opt_text(env["self._end"], fn.f), fn.as_int(env["self.length"], fn.f)))
+    fn.initial = {"spans": ("fsps", "spans")}     # the InitVar `spans` is what `self.spans` reads (S4)
+    for fld in ("_start", "_end"):
+        d = u.field_default("FeatureMap", fld)
+        if d is None or not (isinstance(d, ast.Constant) and d.value is None):
+            raise TranslationError(f"FeatureMap.{fld}: a dataclass field with default None is expected")
+        fn.initial["self." + fld] = ("none",)
+    emit(fn)
+    for prop in ("start", "end"):
+        emit(Fn(u, u.method("FeatureMap", prop), "fm" + prop.capitalize(), [("self", M)], "int", False, owner="FeatureMap"))
+    emit(Fn(u, u.method("FeatureMap", "absolute_position"), "fmAbsolutePosition", [("self", M), ("rel_pos", ("int", "rel_pos"))], "int", True, owner="FeatureMap"))
+    emit(Fn(u, u.method("FeatureMap", "relative_position"), "fmRelativePosition", [("self", M), ("abs_pos", ("int", "abs_pos"))], "int", True, owner="FeatureMap"))
     emit(Fn(u, u.method("FeatureMap", "__mul__"), "fmMul", [("self", M), ("scale", ("int", "scale"))], "fm", True, owner="FeatureMap"))
     emit(Fn(u, u.method("FeatureMap", "__truediv__"), "fmTruediv", [("self", M), ("scale", ("int", "scale"))], "fm", True, owner="FeatureMap"))
     emit(Fn(u, u.method("FeatureMap", "__add__"), "fmAdd", [("self", M), ("other", OM)], "fm", True, owner="FeatureMap"))
